@@ -65,7 +65,10 @@ def txOps (t : TxObs) : List Op :=
   | _ => []
 
 def denomsOf (s : St) : List String :=
-  ((s.total.map (·.1)) ++ (s.committed.map (·.1.2)) ++ (s.custody.map (·.1))).eraseDups
+  -- every denom any of the books mentions - including share denoms that exist only as supply or as a pool's total (shares that were
+  -- minted and never committed are exactly what C02 is about)
+  ((s.total.map (·.1)) ++ (s.committed.map (·.1.2)) ++ (s.custody.map (·.1)) ++
+   ((s.supply.map (·.1)) ++ (s.poolShares.map (·.1))).filter (fun d => d.startsWith "amm/pool/")).eraseDups
 
 def cmpMap {κ : Type} [DecidableEq κ] [ToString κ] (i : Nat) (what : String) (model impl : FMap κ) (keys : List κ) : List Json :=
   match keys.find? (fun k => model.get k != impl.get k) with
